@@ -51,7 +51,7 @@ def extra(cases, verdicts):
 
 
 PROP = dict(
-    proof_modules=["VrpProofs.C05"], model_modules=["VrpModel.Route", "VrpModel.C06", "VrpModel.C05"],
+    proof_modules=["VrpProofs.C05", "VrpProofs.C05Order"], model_modules=["VrpModel.Route", "VrpModel.C06", "VrpModel.C05"],
     drv="drv_c05", bin="c05", compare=compare, nontrivial=nontrivial, extra_evidence=extra,
     rule="construction histories: 1-5 vehicles with feasible tours (metric and non-metric matrices, 1-2 capacity dimensions, distance or cost "
          "objective), 1-6 candidate jobs inserted by the real InsertionHeuristic; a wrapping InsertionEvaluator snapshots the context right "
@@ -76,7 +76,9 @@ META = dict(
          "accept_insertion refreshes the touched route; accept_route_state / accept_solution_state recompute stale routes and clear flags) "
          "every reachable state keeps `not stale => cache = recompute(tour)` (step_inv, run_inv), at hand-over every cache equals "
          "recomputation (handover_all_valid), objective values computed from caches are a function of the tours only "
-         "(fitness_function_of_tours), recomputation is idempotent. Tie: after EVERY applied insertion of real construction runs and at "
+         "(fitness_function_of_tours), recomputation is idempotent; one pass over the features in list order leaves in every written key a value "
+         "that depends on the bare data only - whatever the caches held before - PROVIDED every feature reads bare data or keys written by earlier "
+         "features (C05Order: pass_independent_of_stale, pass_idempotent; wrong_order_depends_on_stale is the shape of the repaired defects S40/S41). Tie: after EVERY applied insertion of real construction runs and at "
          "hand-over the real cached values (schedules, latest arrivals, waiting, totals, load profiles; hook H1) equal the Lean recomputation "
          "from the bare tour, and the real digest equals the real digest after discarding caches and recomputing (also solution-level state "
          "and fitness).",
